@@ -504,6 +504,9 @@ pub struct SimNpm {
   pub sim: Rc<Sim>,
   pub cfg: NpmCfg,
   pub calls: Rc<RefCell<Vec<Vec<String>>>>,
+  /// (requirements, per-requirement success, dependency-graph success) of
+  /// every call
+  pub outcomes: Rc<RefCell<Vec<(Vec<String>, Vec<bool>, bool)>>>,
   /// every requirement this resolver was ever asked to resolve (an npm
   /// resolver is stateful: a later call re-resolves the whole set)
   pub known_reqs: Rc<RefCell<std::collections::BTreeSet<String>>>,
@@ -553,15 +556,19 @@ impl NpmResolver for SimNpm {
       }
     }
     let nothing_to_resolve = self.known_reqs.borrow().is_empty();
+    let dep_graph_fails =
+      self.cfg.dep_graph_fails && !any_failed && !nothing_to_resolve;
+    self.outcomes.borrow_mut().push((
+      names.clone(),
+      results.iter().map(|r| r.is_ok()).collect(),
+      !dep_graph_fails,
+    ));
     NpmResolvePkgReqsResult {
       results,
       // contract: don't run dep graph resolution if there are failures
       // (resolving nothing cannot fail: the dependency graph of an empty
       // requirement set is empty)
-      dep_graph_result: if self.cfg.dep_graph_fails
-        && !any_failed
-        && !nothing_to_resolve
-      {
+      dep_graph_result: if dep_graph_fails {
         Err(Arc::new(JsErrorBox::generic(
           "npm dependency graph resolution failed".to_string(),
         )))
